@@ -249,7 +249,7 @@ def _write_workspace(d, shards, features, extra_deps="", extra_prelude=""):
 
 
 def _cargo_build(d):
-    p = vlib.cargo(["build", "--offline", "--message-format=json", "-q", "-p", "runner"], d, capture=True)
+    p = vlib.cargo(["build", "--offline", "--keep-going", "--message-format=json", "-q", "-p", "runner"], d, capture=True)
     errs = []
     for l in p.stdout.splitlines():
         if not l.startswith("{"):
@@ -289,7 +289,7 @@ class Corpus:
         t0 = time.time()
         units = list(self.units)
         shards_of = lambda us: [us[i::self.nshards] for i in range(self.nshards)]
-        for attempt in range(6):
+        for attempt in range(10):
             shards = shards_of(units)
             _write_workspace(self.dir, shards, self.features, self.extra_deps, self.extra_prelude)
             # rustc's memory grows faster than the size of a crate: no shard above ~450 kB of generated source
